@@ -147,6 +147,9 @@ def run(env, rep):
     # ------------------------------------------------------------------ R4: a chunk carries min(missing, chunk size) bytes
     if wants(rep, "C16.R4"):
         chunk.payload_take(m, rep, "C16.R4")
+    # ------------------------------------------------------------------ R6: a chunk-size change takes effect at once and in full
+    if wants(rep, "C16.R6"):
+        chunk.setter_applies_size(m, rep, "C16.R6")
     # ------------------------------------------------------------------ R5: "never failing" - what the reader refuses does not depend on other chunk streams
     if wants(rep, "C16.R5"):
         from ..framework import PrefixReport as _PR
